@@ -5,6 +5,8 @@ use crate::kani_support::*;
 use crate::track::send::kani_proofs::{mk_send_track, send_input};
 use crate::backend::resources::ResourceController;
 use crate::Value;
+use crate::track::TrackPlaybackState;
+use crate::listener::ListenerId;
 use std::time::Duration;
 
 pub(crate) struct Env {
@@ -60,13 +62,19 @@ pub(crate) fn mk_track(ibs: usize, volume: Decibels, effects: Vec<Box<dyn Effect
     Built { track, writers, sound_ctl, sub_ctl }
 }
 
+/// everything of a Built except the track itself must be forgotten too: dropping the controllers runs the drop glue of
+/// the ring buffers of `Box<dyn Sound>` / `Track`, which dominates CBMC's time
+pub(crate) fn forget_rest(writers: CommandWriters, a: ResourceController<Box<dyn Sound>>, b: ResourceController<Track>) {
+    core::mem::forget(writers); core::mem::forget(a); core::mem::forget(b);
+}
+
 fn zero_tween() -> Tween { Tween { start_time: StartTime::Immediate, duration: Duration::ZERO, easing: Easing::Linear } }
 
-// @ob id=C02.3a strength=bounded tier=quick bound="ibs 2, 1-2 frames; one child track holding one probe sound, one own probe sound, one probe effect (x*0.5+1/4), one send route at 0 dB or -60 dB, track volume 0 dB or -60 dB; dyadic sample values" fn=track/sub.rs::Track::process
+// @ob id=C02.3a strength=bounded tier=thorough timeout=10800 bound="ibs 2, 1-2 frames; one child track holding one probe sound, one own probe sound, one probe effect (x*0.5+1/4), one send route at 0 dB or -60 dB, track volume 0 dB or -60 dB; dyadic sample values" fn=track/sub.rs::Track::process
 // @req a playing track with a child track, a sound, an effect and a send route; out pre-loaded with zeros
 // @ens out = effect(child_out + sound) * amp(volume) (fade at unity); the send track's input receives exactly that post-fader signal times the route gain; child, sound and effect are each driven exactly once for out.len() frames; the scratch buffer is all zero on return
 #[kani::proof]
-#[kani::unwind(6)]
+#[kani::unwind(4)]
 #[kani::stub(f32::powf, powf32_model)]
 fn c02_3a_track_signal_flow() {
     let mut e = env(1);
@@ -79,6 +87,7 @@ fn c02_3a_track_signal_flow() {
     let (sc, ss) = (grid_frame(), grid_frame());
     child.sound_ctl.insert(Box::new(ProbeSound { id: 1, value: sc })).unwrap();
     b.sub_ctl.insert(child.track).unwrap();
+    forget_rest(child.writers, child.sound_ctl, child.sub_ctl);
     b.sound_ctl.insert(Box::new(ProbeSound { id: 0, value: ss })).unwrap();
     b.track.on_start_processing();
     unsafe { assert!(PS_START[0] == 1 && PS_START[1] == 1 && PE_START[0] == 1, "C07.3: new sounds, child tracks and effects are started in the callback that picks them up"); }
@@ -110,11 +119,11 @@ fn c02_3a_track_signal_flow() {
     core::mem::forget(e); core::mem::forget(b);
 }
 
-// @ob id=C12.2a,C02.3b strength=bounded tier=quick bound="as C02.3a; the track paused with a zero-length fade" fn=track/sub.rs::Track::{process,read_commands,pause}
+// @ob id=C12.2a,C02.3b strength=bounded tier=thorough timeout=10800 bound="as C02.3a; the track paused with a zero-length fade" fn=track/sub.rs::Track::{process,read_commands,pause}
 // @req the handle's pause command (zero-length fade) is read at a callback; then one warm-up process lets the fade finish; then a 2-frame process
 // @ens the track reports Paused; its output is exactly zero; its child track, its sound and its effect are not called at all (their positions cannot advance); nothing reaches the send
 #[kani::proof]
-#[kani::unwind(6)]
+#[kani::unwind(4)]
 #[kani::stub(f32::powf, powf32_model)]
 fn c12_2a_paused_track_freezes_subtree() {
     let mut e = env(1);
@@ -124,6 +133,7 @@ fn c12_2a_paused_track_freezes_subtree() {
     let mut child = mk_track(2, Decibels(0.0), vec![], vec![], 1, 0, false);
     child.sound_ctl.insert(Box::new(ProbeSound { id: 1, value: grid_frame() })).unwrap();
     b.sub_ctl.insert(child.track).unwrap();
+    forget_rest(child.writers, child.sound_ctl, child.sub_ctl);
     b.sound_ctl.insert(Box::new(ProbeSound { id: 0, value: grid_frame() })).unwrap();
     b.writers.pause.write(zero_tween());
     b.track.on_start_processing();
@@ -144,56 +154,157 @@ fn c12_2a_paused_track_freezes_subtree() {
     core::mem::forget(e); core::mem::forget(b);
 }
 
-// @ob id=C12.3a strength=bounded tier=quick bound="one parent, one child; persistence on/off; 0 or 1 sounds; removal flags symbolic" fn=track/sub.rs::Track::should_be_removed
-// @req a parent track with one child track; each with an arbitrary 'handle dropped' flag; the parent with persistence on or off and 0 or 1 live sounds
-// @ens should_be_removed == marked && (!persist || no sounds) && child.should_be_removed(): a track is never removable while a descendant track is not
-#[kani::proof]
-#[kani::unwind(6)]
-fn c12_3a_removal_predicate() {
-    let persist: bool = kani::any();
-    let has_sound: bool = kani::any();
+fn run_removal(persist: bool, has_sound: bool) {
     let (pm, cm): (bool, bool) = (kani::any(), kani::any());
     let mut b = mk_track(1, Decibels(0.0), vec![], vec![], 1, 1, persist);
     let child = mk_track(1, Decibels(0.0), vec![], vec![], 0, 0, false);
-    if cm { child.track.shared.mark_for_removal(); }
-    b.sub_ctl.insert(child.track).unwrap();
-    if has_sound { b.sound_ctl.insert(Box::new(ProbeSound { id: 0, value: Frame::ZERO })).unwrap(); }
-    b.track.sub_tracks.remove_and_add(|_| false);
-    b.track.sounds.remove_and_add(|_| false);
+    // the object graph is built with a concrete shape (symbolic shapes make every arena error path, and with it the
+    // recursive drop glue of Track, reachable for CBMC); only the two 'handle dropped' flags are symbolic
+    let _ = b.track.sub_tracks.resources.insert(child.track);
+    forget_rest(child.writers, child.sound_ctl, child.sub_ctl);
+    if has_sound { let _ = b.track.sounds.resources.insert(Box::new(ProbeSound { id: 0, value: Frame::ZERO })); }
+    if cm { for (_, c) in b.track.sub_tracks.iter() { c.shared.mark_for_removal(); } }
     if pm { b.track.shared.mark_for_removal(); }
     let want = pm && (!persist || !has_sound) && cm;
-    assert!(b.track.should_be_removed() == want, "C12.3a: removal follows the handle / persistence / descendants rule");
+    assert!(b.track.should_be_removed() == want, "C12.3: removal follows the handle / persistence / descendants rule");
     kani::cover!(want);
     kani::cover!(pm && !cm);
-    kani::cover!(pm && cm && persist && has_sound);
     core::mem::forget(b);
 }
 
-// @ob id=C12.1c strength=bounded tier=quick finding=F6 fn=track/sub.rs::Track::{process,read_commands,resume}
-// @req witness for finding F6 through the real objects: a clock is created and removed again (its id is now stale); the track handle issues resume_at(that clock's time); one callback and one process follow
-// @ens (expected to FAIL while F6 is present) the state reported for the track is one of the five track states and querying it does not panic
+// @ob id=C12.3a strength=bounded tier=thorough timeout=10800 bound="one parent with one child track; persistence off; one live sound; 'handle dropped' flags of parent and child symbolic" fn=track/sub.rs::Track::should_be_removed
+// @req parent without persistence
+// @ens should_be_removed == parent marked && child removable: a track is never removable while a descendant track is not; live sounds do not keep a non-persistent track
 #[kani::proof]
-#[kani::unwind(6)]
+#[kani::unwind(3)]
+fn c12_3a_removal_no_persist() { run_removal(false, true) }
+
+// @ob id=C12.3b strength=bounded tier=thorough timeout=10800 bound="as C12.3a; persistence on; one live sound" fn=track/sub.rs::Track::should_be_removed
+// @req persistent parent that still has a sound
+// @ens never removable while its sound lives (built to persist until its sounds finish)
+#[kani::proof]
+#[kani::unwind(3)]
+fn c12_3b_removal_persist_with_sound() { run_removal(true, true) }
+
+// @ob id=C12.3c strength=bounded tier=thorough timeout=10800 bound="as C12.3a; persistence on; no sounds" fn=track/sub.rs::Track::should_be_removed
+// @req persistent parent without sounds
+// @ens removable exactly when marked and the child is removable
+#[kani::proof]
+#[kani::unwind(3)]
+fn c12_3c_removal_persist_no_sound() { run_removal(true, false) }
+
+// ----------------------------------------------------------------------------------------------------------------
+// C15 — spatial data
+// ----------------------------------------------------------------------------------------------------------------
+fn spatial(position: Vec3, strength: f32, attenuation: Option<Easing>) -> SpatialData {
+    SpatialData {
+        listener_id: ListenerId(any_small_key(1)),
+        position: Parameter::new(Value::Fixed(position), Vec3::ZERO),
+        distances: SpatialTrackDistances { min_distance: 1.0, max_distance: 100.0 },
+        attenuation_function: attenuation,
+        spatialization_strength: Parameter::new(Value::Fixed(strength), 0.75),
+    }
+}
+
+// @ob id=C15.2a strength=bounded tier=quick bound="listener at the origin, identity orientation; emitter on the x axis at distance in {0, 1/2, 1, 2, 50, 100, 200}; min 1, max 100; linear attenuation; spatialization strength 0; symbolic grid input frame" axioms=EXP10 fn=track/sub.rs::SpatialData::spatialize
+// @req strength 0 (no panning)
+// @ens within the minimum distance the frame passes unchanged (unity, and the stereo signal is not folded to mono); at or beyond the maximum distance the output is exactly zero; in between it is attenuated (never louder, sign kept); coincident emitter and listener give a finite result
+#[kani::proof]
+#[kani::unwind(8)]
 #[kani::stub(f32::powf, powf32_model)]
-fn c12_1c_witness_f6_resume_at_removed_clock() {
-    let (mut clocks, mut cctl) = Clocks::new(1);
-    let key = cctl.try_reserve().unwrap();
-    let id = crate::clock::ClockId(key);
-    let (clock, handle) = crate::clock::Clock::new(Value::Fixed(crate::clock::ClockSpeed::TicksPerSecond(1.0)), id);
-    cctl.insert_with_key(key, clock);
-    clocks.on_start_processing();
-    drop(handle); // marks the clock for removal
-    clocks.on_start_processing();
+fn c15_2a_distance_attenuation() {
+    let d = match kani::any::<u8>() % 7 { 0 => 0.0f32, 1 => 0.5, 2 => 1.0, 3 => 2.0, 4 => 50.0, 5 => 100.0, _ => 200.0 };
+    let sd = spatial(Vec3::new(d, 0.0, 0.0), 0.0, Some(Easing::Linear));
+    let x = grid_frame();
+    let out = sd.spatialize(x, Vec3::ZERO, Quat::IDENTITY, 1.0);
+    if d <= 1.0 { assert!(out.left == x.left && out.right == x.right, "C15.2a: unity within the minimum distance, stereo image untouched at strength 0"); }
+    else if d >= 100.0 { assert!(out.left == 0.0 && out.right == 0.0, "C15.2a: zero at or beyond the maximum distance"); }
+    else {
+        assert!(out.left.abs() <= x.left.abs() && out.right.abs() <= x.right.abs(), "C15.2a: attenuation never amplifies");
+        assert!(out.left.is_finite() && out.right.is_finite(), "C15.2a: finite");
+    }
+    kani::cover!(d == 0.0);
+    kani::cover!(d == 50.0);
+    kani::cover!(d == 200.0);
+    core::mem::forget(sd);
+}
+
+// @ob id=C15.3a strength=bounded tier=thorough timeout=10800 bound="real Track with spatial data whose listener id does not resolve (listener arena of capacity 1, empty); one probe sound; 2 frames" fn=track/sub.rs::Track::process
+// @req a spatial track whose listener never existed or was dropped
+// @ens every output frame is exactly zero (the track is silent without a listener), and nothing is sent onward
+#[kani::proof]
+#[kani::unwind(4)]
+#[kani::stub(f32::powf, powf32_model)]
+fn c15_3a_spatial_track_without_listener_is_silent() {
+    let (clocks, c1) = Clocks::new(0);
     let (modulators, c2) = Modulators::new(0);
-    let (listeners, c3) = Listeners::new(0);
+    let (listeners, c3) = Listeners::new(1);
     let (mut sends, c4) = ResourceStorage::<SendTrack>::new(0);
-    let mut b = mk_track(1, Decibels(0.0), vec![], vec![], 0, 0, false);
-    b.writers.resume.write((StartTime::ClockTime(crate::clock::ClockTime { clock: id, ticks: 1, fraction: 0.0 }), zero_tween()));
+    let mut b = mk_track(2, Decibels(0.0), vec![], vec![], 1, 0, false);
+    b.track.spatial_data = Some(spatial(Vec3::new(2.0, 0.0, 0.0), 0.75, Some(Easing::Linear)));
+    b.sound_ctl.insert(Box::new(ProbeSound { id: 0, value: Frame::new(0.5, 0.25) })).unwrap();
     b.track.on_start_processing();
-    let mut out = [Frame::ZERO; 1];
+    let mut out = [Frame::ZERO; 2];
     b.track.process(&mut out, 1.0 / 48000.0, &clocks, &modulators, &listeners, None, &mut sends);
-    let s = b.track.shared.state();
-    kani::cover!(s == TrackPlaybackState::Paused);
-    core::mem::forget(b); core::mem::forget(clocks); core::mem::forget(cctl); core::mem::forget(modulators); core::mem::forget(listeners); core::mem::forget(sends);
-    core::mem::forget(c2); core::mem::forget(c3); core::mem::forget(c4);
+    assert!(out[0].left == 0.0 && out[0].right == 0.0 && out[1].left == 0.0 && out[1].right == 0.0, "C15.3a: a spatial track without a listener is silent");
+    unsafe { assert!(PS_CALLS[0] == 1, "C15.3a: (its sounds still advance)"); }
+    kani::cover!(true);
+    core::mem::forget(b); core::mem::forget(clocks); core::mem::forget(modulators); core::mem::forget(listeners); core::mem::forget(sends);
+    core::mem::forget(c1); core::mem::forget(c2); core::mem::forget(c3); core::mem::forget(c4);
+}
+
+
+// ----------------------------------------------------------------------------------------------------------------
+// leaf-track variants (no child track: no Arena<Track> assignment, hence no recursive Track drop glue) for the quick tier
+// ----------------------------------------------------------------------------------------------------------------
+
+// @ob id=C02.3c strength=bounded tier=quick timeout=2400 bound="ibs 2, 2 frames; a leaf track with one probe sound, one probe effect (x*0.5+1/4), one send route at 0 dB, track volume 0 dB; dyadic sample values" fn=track/sub.rs::Track::process
+// @req a playing leaf track
+// @ens out = effect(sound) (unity volume and fade); the send input receives exactly that signal; sound and effect are driven once for 2 frames with the given dt; scratch buffer zero on return
+#[kani::proof]
+#[kani::unwind(4)]
+#[kani::stub(f32::powf, powf32_model)]
+fn c02_3c_leaf_track_signal_flow() {
+    let mut e = env(1);
+    let send_key = e.send_ctl.insert(mk_send_track(2, Decibels(0.0), vec![])).unwrap();
+    e.sends.remove_and_add(|_| false);
+    let mut b = mk_track(2, Decibels(0.0), vec![Box::new(ProbeEffect { id: 0, gain: 0.5, add: 0.25 })], vec![(SendTrackId(send_key), Decibels(0.0))], 1, 0, false);
+    let ss = grid_frame();
+    let _ = b.track.sounds.resources.insert(Box::new(ProbeSound { id: 0, value: ss }));
+    let mut out = [Frame::ZERO; 2];
+    let dt = 1.0 / 48000.0;
+    b.track.process(&mut out, dt, &e.clocks, &e.modulators, &e.listeners, None, &mut e.sends);
+    let want = Frame::new(ss.left * 0.5 + 0.25, ss.right * 0.5);
+    assert!(out[0].left == want.left && out[0].right == want.right && out[1].left == want.left && out[1].right == want.right, "C02.3c: track output = effects(sounds) x volume x fade");
+    let st = e.sends.get_mut(send_key).unwrap();
+    assert!(send_input(st, 0).left == want.left && send_input(st, 1).right == want.right, "C02.3c: the send is fed from the post-fader signal");
+    unsafe { assert!(PS_CALLS[0] == 1 && PS_FRAMES[0] == 2 && PS_DT[0] == dt && PE_CALLS[0] == 1 && PE_FRAMES[0] == 2, "C02.3c: sound and effect driven exactly once for every frame"); }
+    assert!(b.track.temp_buffer[0].left == 0.0 && b.track.temp_buffer[1].left == 0.0 && b.track.temp_buffer[0].right == 0.0 && b.track.temp_buffer[1].right == 0.0, "C02.3c: nothing is left in the scratch buffer");
+    kani::cover!(ss.left != 0.0);
+    core::mem::forget(e); core::mem::forget(b);
+}
+
+// @ob id=C12.2b,C02.3d strength=bounded tier=quick timeout=2400 bound="a leaf track with one probe sound and one probe effect, paused with a zero-length fade; 2 frames" fn=track/sub.rs::Track::{process,read_commands,pause}
+// @req pause command read at a callback, one warm-up update, then a 2-frame process
+// @ens the handle reports Pausing, then Paused; the paused track emits exact silence and neither its sound nor its effect is called (nothing beneath it advances)
+#[kani::proof]
+#[kani::unwind(4)]
+#[kani::stub(f32::powf, powf32_model)]
+fn c12_2b_paused_leaf_track_is_frozen() {
+    let mut e = env(0);
+    let mut b = mk_track(2, Decibels(0.0), vec![Box::new(ProbeEffect { id: 0, gain: 0.5, add: 0.25 })], vec![], 1, 0, false);
+    let _ = b.track.sounds.resources.insert(Box::new(ProbeSound { id: 0, value: Frame::new(0.5, 0.5) }));
+    b.writers.pause.write(zero_tween());
+    b.track.on_start_processing();
+    assert!(b.track.shared.state() == TrackPlaybackState::Pausing, "C12.2b: pause is applied at the callback");
+    let mut warm = [Frame::ZERO; 1];
+    b.track.process(&mut warm, 0.0, &e.clocks, &e.modulators, &e.listeners, None, &mut e.sends);
+    assert!(b.track.shared.state() == TrackPlaybackState::Paused, "C12.2b: a zero-length fade completes at the next update");
+    unsafe { PS_CALLS[0] = 0; PE_CALLS[0] = 0; }
+    let mut out = [Frame::new(3.0, 3.0); 2];
+    b.track.process(&mut out, 1.0 / 48000.0, &e.clocks, &e.modulators, &e.listeners, None, &mut e.sends);
+    assert!(out[0].left == 0.0 && out[0].right == 0.0 && out[1].left == 0.0 && out[1].right == 0.0, "C12.2b: a paused track emits exact silence");
+    unsafe { assert!(PS_CALLS[0] == 0 && PE_CALLS[0] == 0, "C12.2b: nothing beneath a paused track is processed"); }
+    kani::cover!(true);
+    core::mem::forget(e); core::mem::forget(b);
 }
